@@ -195,6 +195,16 @@ theorem K_call (cap : Nat) (f : Plan) (s : St) (c : Call) (hk : K s) : K (call c
         simp only [K, hs] at hk ⊢
         intro hc
         exact hk hc
+  | removeLock =>
+    simp only [call]
+    split
+    · cases hs : s.writer with
+      | none => simp [K, hs]
+      | some w =>
+        simp only [K, hs] at hk ⊢
+        intro hc
+        exact hk hc
+    · exact hk
 
 theorem K_run (cap : Nat) (F : Nat → Plan) (i : Nat) (s : St) (cs : List Call) (h : K s) :
     K (run cap F i s cs).1 :=
@@ -249,10 +259,6 @@ theorem clean_commit_ok {cap : Nat} {f : Plan} {s : St} {w : Writer} (hw : s.wri
         · simp [h4, h5, ← h10, content]
 
 /-! ### the lock file -/
-
-/-- a lock file that nobody owns -/
-def stale (s : St) : Bool :=
-  s.lockFile && !(match s.writer with | some w => w.guard | none => false)
 
 /-- plans in which releasing / flushing the lock file never fails -/
 def LockSafe (f : Plan) : Prop := f .lockFlush = false ∧ f .lockDelete = false
@@ -383,6 +389,11 @@ theorem stale_call (cap : Nat) (f : Plan) (hf : LockSafe f) (s : St) (c : Call)
     simp only [call]
     split
     · exact h
+    · exact h
+  | removeLock =>
+    simp only [call]
+    split
+    · simp [stale]
     · exact h
 
 /-- dropping the writer when no lock file is orphaned and the delete works: the lock is free -/
